@@ -5,7 +5,8 @@
 (*  line   tilecover.LineString / MultiLineString / Geometry on a lattice path                                  *)
 (*  poly   tilecover.Polygon / Ring / MultiPolygon / Geometry on a lattice polygon with holes                   *)
 (*  point  tilecover.Point / MultiPoint                       coll  tilecover.Collection = union of the members  *)
-(*  merge  tilecover.MergeUp of a tile set (several runs: Go map order varies)                                   *)
+(*  merge  tilecover.MergeUp of a tile set (several runs: Go map order varies; the last run on a reused map that    *)
+(*         still holds false-valued keys of earlier covers)        bound  tilecover.Bound                          *)
 EXTENDS TileCover, TLC, Json, IOUtils
 Trace == ndJsonDeserialize(IOEnv.TRACE)
 VARIABLES l, bad
@@ -31,11 +32,15 @@ PolyOk(e) == LET c == ToSet(e.cover) IN
    /\ \A i \in 1..Len(e.polys) : MustInterior(e.u, e.polys[i], e.w) \subseteq c /\ MustBoundary(e.u, e.polys[i], e.w) \subseteq c
    /\ c \subseteq UNION {BBoxTiles(e.u, e.polys[i], e.w) : i \in 1..Len(e.polys)}
 PointOk(e) == ToSet(e.cover) = {<<e.pts[i][1] \div e.u, e.pts[i][2] \div e.u>> : i \in 1..Len(e.pts)}
+\* a bound <<west, north, east, south>> in lattice units (y grows southwards), corners off the tile edges: exactly the
+\* tiles between the tiles of its corners
+BoundCoverOk(e) == ToSet(e.cover) = {<<x, y>> : x \in (e.b[1] \div e.u)..(e.b[3] \div e.u), y \in (e.b[2] \div e.u)..(e.b[4] \div e.u)}
+                   /\ Len(e.cover) = Cardinality(ToSet(e.cover))
 CollOk(e) == ToSet(e.cover) = UNION {ToSet(e.each[i]) : i \in 1..Len(e.each)}
 MergeOk(e) == /\ e.runs = 1                                  \* every repetition gave the same set
               /\ ToSet(e.out) = MaxMergeEv(ToSet(e.in), e.z, e.min) /\ Len(e.out) = Cardinality(ToSet(e.out))
 Ok(e) == CASE e.k = "line" -> LineOk(e) [] e.k = "poly" -> PolyOk(e) [] e.k = "point" -> PointOk(e)
-           [] e.k = "coll" -> CollOk(e) [] e.k = "merge" -> MergeOk(e) [] OTHER -> FALSE
+           [] e.k = "coll" -> CollOk(e) [] e.k = "merge" -> MergeOk(e) [] e.k = "bound" -> BoundCoverOk(e) [] OTHER -> FALSE
 Init == l = 1 /\ bad = {}
 Next == /\ l <= Len(Trace) /\ l' = l + 1
         /\ bad' = IF Ok(Trace[l]) THEN bad ELSE bad \cup {l}
